@@ -71,6 +71,7 @@ def make_net(rng, idx, profile):
         bb = netgen.B(rng, f"casclut{idx}", rng.choice(["int8", "int8", "uint8", "int16"]))
         h, w = rng.choice([33, 37, 48, 64]), rng.choice([32, 64])
         c0, mid = rng.choice([4, 8]), rng.choice([24, 32, 48])
+        bb.set_extremes(0.1)
         x = bb.input([1, h, w, c0])
         kinds = [rng.choice(["lut", "lut", "dw", "pool", "conv", "lut"]) for _ in range(rng.randint(1, 3))]
         if "lut" not in kinds:
@@ -99,12 +100,21 @@ def make_net(rng, idx, profile):
         return netgen.pattern_net(rng, idx, profile.split(":", 1)[1])
     if profile == "weird":
         return netgen.weird_net(rng, idx)
+    if profile == "act_extremes":
+        import extremes_gen
+
+        return extremes_gen.act_extremes_net(rng, idx)
+    if profile == "rejected":
+        import reject_gen
+
+        return reject_gen.rejected_net(rng, idx)
     if profile == "known_cascade_s3":
         # DESIGN.md section 8 #7: rolling buffer too small for a 3x3 stride-3 SAME consumer, H mod 3 == 1
         return netgen.cascade_net(rng, idx, h=37, w=64, c=32,
                                   specs=[(3, 1, "SAME", "conv"), (3, 3, "SAME", "conv"), (3, 1, "SAME", "conv")])
     if profile == "lut":
         b = netgen.B(rng, f"lut{idx}", rng.choice(["int8", "uint8", "int8", "int16"]))
+        b.set_extremes(0.3, 0.5)      # table-lookup activations must see quantisation extremes (scale 1e-8 .. 1e3, end zero points)
         x = b.input([1, rng.randint(1, 12), rng.randint(1, 12), rng.choice([1, 4, 8, 16, 20])])
         cur = x
         for _ in range(rng.randint(1, 5)):
@@ -151,6 +161,7 @@ def _worker(job):
         opts = sample_config(rng, profile)
         if "more_opts" in want:
             opts += more_options(rng)
+        opts += [e for e in getattr(net, "extra_opts", []) if e not in opts]      # options a generated case asks for
         if profile == "known_cascade_s3":
             opts = ["--accelerator-config", "ethos-u55-128", "--optimise", "Size"]
         if net.name.endswith(("casc_s2_valid",)) and rng.random() < 0.7:
